@@ -266,8 +266,8 @@ func sortedVersions(vs []string) map[string]int {
 	return m
 }
 
-// tq2 returns the version of rank k.
-func tq2(rank map[string]int, k int) string {
+// versionOfRank returns the version of rank k.
+func versionOfRank(rank map[string]int, k int) string {
 	for v, i := range rank {
 		if i == k {
 			return v
@@ -276,7 +276,7 @@ func tq2(rank map[string]int, k int) string {
 	return ""
 }
 
-// Generate draws one PyPI universe: 3-7 packages a..g with 1-5 versions each
+// Generate draws one PyPI universe: 4-7 packages a..g with 1-5 versions each
 // (finals M.m and pre/dev releases). Every package has a small set of target
 // packages (mostly later in the alphabet, sometimes earlier so that cycles
 // arise) and each of its versions requires most of them, each with its own
@@ -351,10 +351,10 @@ func Generate(rng *rand.Rand) *uni.Universe {
 				} else if style[ti] > 0 {
 					tq := sortedVersions(vers[q])
 					k := order[v] * len(tq) / len(order)
-					for k > 0 && !isFinalText(tq2(tq, k)) {
+					for k > 0 && !isFinalText(versionOfRank(tq, k)) {
 						k--
 					}
-					rq.Req = []string{"", ">=", "=="}[style[ti]] + tq2(tq, k)
+					rq.Req = []string{"", ">=", "=="}[style[ti]] + versionOfRank(tq, k)
 				}
 				if rng.Intn(3) == 0 && len(active) > 0 {
 					rq.Environment = active[rng.Intn(len(active))].Marker
